@@ -34,3 +34,5 @@ void impl_tree_blocks(const cbor_item_t* it, std::vector<const void*>& out, std:
 // nesting limit / growth factor of the build under test (from the generated configuration.h)
 unsigned impl_max_stack();
 unsigned impl_growth();
+// the per-type public serializer for this item's type (cbor_serialize_uint ... cbor_serialize_float_ctrl)
+size_t impl_serialize_typed(const cbor_item_t* it, unsigned char* buf, size_t cap);
